@@ -1042,10 +1042,10 @@ namespace link_layer {
         }
 
         if ( state_ != state::disconnecting )
-        {
-            state_                = state::connected;
-            transmit_window_size_ = delta_time();
-        }
+            state_ = state::connected;
+
+        // the transmit window applies only to the first event after a connect request or a connection update
+        transmit_window_size_ = delta_time();
 
         /*
          * L2CAP and pending LL PDUs are handle first, to get the information whether there is
